@@ -78,6 +78,7 @@ inductive CloseKind where
 /-- ghost record of how a deal left the market -/
 structure Closed where
   kind : CloseKind
+  deal : Proposal
   atEpoch : Int
   /-- credited to the provider over the deal's life -/
   paid : Int
@@ -461,7 +462,7 @@ def timeoutDeal (s : State) (id : Nat) (d : Proposal) : Except Err State :=
         | .ok s4 =>
           if d ∉ s4.pending then .error .illegalState
           else .ok (removeDeal { s4 with pending := pendingRemove s4.pending d } id
-            { kind := .timedOut, atEpoch := s.epoch, paid := bal s.paid id, feeRefund := d.fee,
+            { kind := .timedOut, deal := d, atEpoch := s.epoch, paid := bal s.paid id, feeRefund := d.fee,
               clientCollRefund := d.clientColl, providerCollRefund := 0, burnt := d.providerColl })
 
 /-- `process_deal_update` for a deal that was never slashed; returns (state, payment, completed).
@@ -496,7 +497,7 @@ def processDealUpdate (s : State) (id : Nat) (d : Proposal) (st : DealState) :
       else .ok (s1, payment, false)
 
 def completedRecord (s : State) (id : Nat) (d : Proposal) : Closed :=
-  { kind := .completed, atEpoch := s.epoch, paid := bal s.paid id, feeRefund := 0,
+  { kind := .completed, deal := d, atEpoch := s.epoch, paid := bal s.paid id, feeRefund := 0,
     clientCollRefund := d.clientColl, providerCollRefund := d.providerColl, burnt := 0 }
 
 /-! ### lib.rs: SettleDealPayments -/
@@ -588,7 +589,7 @@ def terminateOne (s : State) (caller : Nat) (slashEpoch : Int) (id : Nat) : Exce
                 | .error e => .error e
                 | .ok s4 =>
                   .ok (removeDeal s4 id
-                    { kind := .terminated, atEpoch := slashEpoch, paid := bal s4.paid id,
+                    { kind := .terminated, deal := d, atEpoch := slashEpoch, paid := bal s4.paid id,
                       feeRefund := remaining, clientCollRefund := d.clientColl,
                       providerCollRefund := 0, burnt := d.providerColl }, d.providerColl)
 
